@@ -117,10 +117,12 @@ func (s *store) setOpen() error {
 func (s *store) peers() []string {
 	s.mu.RLock()
 	defer s.mu.RUnlock()
-	if s.raftState == nil {
+	if s.raftState == nil || s.raftState.raft == nil {
 		return nil
 	}
-	if s.leader() == "" {
+	// Not s.leader(): it takes the read lock again, which blocks for ever behind a
+	// writer that is waiting for the lock.
+	if l, _ := s.raftState.raft.LeaderWithID(); l == "" {
 		return nil
 	}
 	peers, err := s.raftState.peers()
